@@ -37,6 +37,8 @@ pub struct GenParams {
     pub id_weights: [usize; 3],
     /// requirements only point "forward" (no cycles)
     pub acyclic: bool,
+    /// version set shape weights for root requirements (None = vs_weights)
+    pub root_vs_weights: Option<[usize; 4]>,
 }
 
 impl GenParams {
@@ -64,6 +66,7 @@ impl GenParams {
             max_soft: 0,
             id_weights: [6, 3, 3],
             acyclic: false,
+            root_vs_weights: None,
         }
     }
 
@@ -92,6 +95,7 @@ impl GenParams {
             max_soft: 0,
             id_weights: [6, 3, 3],
             acyclic: false,
+            root_vs_weights: None,
         }
     }
 
@@ -120,6 +124,7 @@ impl GenParams {
             max_soft: 0,
             id_weights: [6, 3, 3],
             acyclic: false,
+            root_vs_weights: None,
         }
     }
 }
@@ -127,6 +132,7 @@ impl GenParams {
 struct Builder<'a> {
     rng: &'a mut Rng,
     p: &'a GenParams,
+    vs_override: Option<[usize; 4]>,
     w: World,
     next_vs: u32,
     next_union: u32,
@@ -142,7 +148,8 @@ impl Builder<'_> {
         } else if self.p.p_empty_vs > 0 && self.rng.chance(self.p.p_empty_vs, 32) {
             vec![]
         } else {
-            match self.rng.weighted(&self.p.vs_weights) {
+            let weights = self.vs_override.unwrap_or(self.p.vs_weights);
+            match self.rng.weighted(&weights) {
                 0 => cands.clone(),
                 1 => vec![*self.rng.pick(&cands)],
                 2 => {
@@ -224,6 +231,7 @@ pub fn gen_world(rng: &mut Rng, p: &GenParams, n_problems: usize) -> (World, Vec
     let mut b = Builder {
         rng,
         p,
+        vs_override: None,
         w: World::default(),
         next_vs: 0,
         next_union: 0,
@@ -365,12 +373,14 @@ pub fn gen_world(rng: &mut Rng, p: &GenParams, n_problems: usize) -> (World, Vec
     for _ in 0..n_problems {
         let n_req = b.rng.range(if p.max_root_reqs > 0 { 1 } else { 0 }, p.max_root_reqs.max(1));
         let mut requirements = Vec::new();
+        b.vs_override = p.root_vs_weights;
         for _ in 0..n_req {
             let r = b.new_req(None);
             if !requirements.contains(&r) || b.rng.chance(1, 8) {
                 requirements.push(r);
             }
         }
+        b.vs_override = None;
         let n_con = b.rng.below(p.max_root_constraints + 1);
         let mut constraints = Vec::new();
         for _ in 0..n_con {
